@@ -132,15 +132,17 @@ def make(rng, pattern, variant):
         prev = ohlc(o0, o0 + pbody if up else o0 - pbody, 0.2 * aR, 0.2 * aR)
         h = h[:-1] + [prev]
         aR = sum(rng_(c) for c in h[-10:]) / 10
-        gap = 0.3 * aR if variant != "no_gap" else -min(0.4 * pbody, 0.5 * aR)
+        gap = 0.3 * aR if variant not in ("no_gap", "gap_wrong_way") else -min(0.4 * pbody, 0.5 * aR)
+        if variant == "gap_wrong_way":
+            gap = -(pbody + 0.4 * aR)  # a clear gap, but on the far side of the previous body: against the previous candle's direction
         b = 0.015 * aR if variant != "body_not_doji" else 0.5 * aR
         sh = 0.3 * aR
         if up:
             o = max(prev[0], prev[3]) + gap
-            cnd = ohlc(o, o + b, sh, sh if variant != "no_gap" else 0.1 * aR)
+            cnd = ohlc(o, o + b, sh if variant != "gap_wrong_way" else 0.1 * aR, sh if variant not in ("no_gap",) else 0.1 * aR)
         else:
             o = min(prev[0], prev[3]) - gap
-            cnd = ohlc(o, o - b, sh if variant != "no_gap" else 0.1 * aR, sh)
+            cnd = ohlc(o, o - b, sh if variant not in ("no_gap",) else 0.1 * aR, sh if variant != "gap_wrong_way" else 0.1 * aR)
         cs = h + [cnd]
     elif pattern == "hammer":
         b = 0.25 * aB if variant != "body_long" else 2.6 * max(aB, 1.0)
@@ -163,14 +165,15 @@ def make(rng, pattern, variant):
         if all(v == "T" for v in ev.values()):
             return cs, True, regime
         return None
-    if ev.get(variant) == "F" and all(v == "T" for k, v in ev.items() if k != variant):
+    clause = "no_gap" if variant == "gap_wrong_way" else variant
+    if ev.get(clause) == "F" and all(v == "T" for k, v in ev.items() if k != clause):
         return cs, False, regime
     return None
 
 
 VARIANTS = {
     "doji": ["witness", "body_not_doji"],
-    "dojistar": ["witness", "prev_body_short", "body_not_doji", "no_gap"],
+    "dojistar": ["witness", "prev_body_short", "body_not_doji", "no_gap", "gap_wrong_way"],
     "hammer": ["witness", "body_long", "lower_shadow_short", "upper_shadow_long", "not_near_low"],
     "inv_hammer": ["witness", "body_long", "upper_shadow_short", "lower_shadow_long", "no_gap_down"],
 }
